@@ -26,7 +26,7 @@ def repo_clean():
 
 
 def run_check(prop, tier, seed=0):
-    env = dict(os.environ, VERIF_SEED=str(seed))
+    env = dict(os.environ, VERIF_SEED=str(seed), VERIF_EVIDENCE_DIR=os.path.join(VERIF, ".build", "evidence-scratch"))
     t = time.time()
     r = sh([os.path.join(VERIF, "check"), prop, "--tier", tier], cwd=VERIF, env=env)
     keys = re.findall(r"^\s+key=(\S+)", r.stdout, re.M)
